@@ -630,10 +630,16 @@ class ANF:
             return a if sym == "+" else mk_not(sym, a)
         if isinstance(e, ast.BoolOp):
             sym = "and" if isinstance(e.op, ast.And) else "or"
-            vals = [ev(v) for v in e.values]
+            vals = []
             out = []
-            for v in vals:
+            c2 = cond
+            for vn in e.values:
+                # short-circuit: later operands are evaluated only where the earlier ones did not decide the result
+                v = self.eval(vn, env, c2, loops)
+                vals.append(v)
                 tv = truth(v)
+                if tv is None:
+                    c2 = c2 + ((v, sym == "and"),)
                 if sym == "and" and tv is False:
                     return v if not out else ("bool", sym, tuple(out + [v]))
                 if sym == "or" and tv is True:
@@ -695,8 +701,16 @@ class ANF:
                 elt = ("kv", self.eval(e.key, e2, cond, loops), self.eval(e.value, e2, cond, loops))
             else:
                 elt = self.eval(e.elt, e2, cond, loops)
-            t = ("comp", type(e).__name__, elt, tuple(gens))
-            return _renumber(t)
+            t = _renumber(("comp", type(e).__name__, elt, tuple(gens)))
+            if not isinstance(e, ast.DictComp) and all(g_[1][0] in ("list", "tuple") and len(g_[1][1]) <= 16 for g_ in t[3]):
+                # a comprehension over a display is the display of its elements (like the unrolled loop)
+                try:
+                    items = expand_comp(t)
+                except Exception:       # noqa
+                    items = None
+                if items is not None:
+                    return ("set" if isinstance(e, ast.SetComp) else "list", tuple(items))
+            return t
         if isinstance(e, ast.Call):
             return self.call(e, env, cond, loops)
         if isinstance(e, ast.JoinedStr):
